@@ -66,11 +66,11 @@ def run(ctx):
     # 3. longer programs and the slices too big to enumerate: random walks of the same generator (several seeds)
     nlong = 4 if thorough else 1
     for k in range(nlong):
-        jobs.append(lambda k=k: sp.tlc_programs(ctx, 'long', simulate='num=%d' % (900 if thorough else 200), depth=30,
+        jobs.append(lambda k=k: sp.tlc_programs(ctx, 'long', simulate='num=%d' % (900 if thorough else 120), depth=30,
                                                 seed=ctx.seed + 70 + k, timeout=1500, label='simulated long programs %d' % k,
                                                 tag='l%d' % k))
     for k in range(3 if thorough else 1):
-        jobs.append(lambda k=k: sp.tlc_programs(ctx, 'sampled', simulate='num=%d' % (8000 if thorough else 300), depth=10,
+        jobs.append(lambda k=k: sp.tlc_programs(ctx, 'sampled', simulate='num=%d' % (8000 if thorough else 200), depth=10,
                                                 seed=ctx.seed + 80 + k, timeout=1500,
                                                 label='random walks of the big slices %d' % k, tag='s%d' % k))
     with ThreadPoolExecutor(max_workers=len(jobs)) as ex:
@@ -96,7 +96,7 @@ def run(ctx):
     judge(ctx, recs, 'generated')
     # 4. L2 binding: SynthOpt.tla (builder + optimiser transcribed; TLC checked above that each of its rewrites
     #    preserves the denotation) must PREDICT the emitted definition exactly; a difference is model drift
-    sample = recs if thorough else recs[::5]
+    sample = recs if thorough else recs[::6]
     vd = ctx.validate('TraceSynthOpt', 'TraceSynthOpt.cfg', [sp.c01_trace(r_) for r_ in sample], timeout=3000,
                       env={'JAVA_TOOL_OPTIONS': sp.JVM_OPTS, 'VERIF_SLICE': 'coverS'})
     ndrift = 0
